@@ -158,10 +158,16 @@ def ensure_facts(config="default", repo=None, log=None):
             fh.write(md.stdout)
         with open(os.path.join(out, "DONE"), "w") as fh:
             json.dump({"digest": digest, "config": config, "extract_s": round(time.time() - t0, 2)}, fh)
-        # keep the cache small: drop fact dirs other than the 24 most recent
+        # keep the cache small: drop fact dirs beyond the 40 most recent, but never one younger than 20 minutes (a parallel
+        # self-test run may still be reading it)
         dirs = sorted(glob.glob(os.path.join(CACHE, "facts", "*")), key=os.path.getmtime)
-        for d in dirs[:-24]:
-            shutil.rmtree(d, ignore_errors=True)
+        now = time.time()
+        for d in dirs[:-40]:
+            try:
+                if now - os.path.getmtime(d) > 1200:
+                    shutil.rmtree(d, ignore_errors=True)
+            except OSError:
+                pass
         if log:
             log("extracted facts for %s (%s) in %.1fs" % (digest, config, time.time() - t0))
         return out
